@@ -194,7 +194,7 @@ def worker(indices):
     rng = random.Random(SEED * 15485863 + (indices[0] if indices else 0))
     hs = {}
     viol = []
-    cnt = dict(cases=0, runs=0, nontrivial=0, objects=0)
+    cnt = dict(cases=0, runs=0, nontrivial=0, objects=0, orm_loaded=0)
     cov = {}
     for ci in indices:
         c = CASES[ci]
@@ -211,10 +211,15 @@ def worker(indices):
             nt = bool(exp) and bool(below)
         if nt:
             cnt["nontrivial"] += 1
-        for v in variants(c, None if False else _hier(hs, ds, "none"), rng, TIER != "quick"):
+        via_orm = rng.random() < 0.3       # the rows are persisted through the ORM (the mapper writes the discriminator)
+        for v in variants(c, _hier(hs, ds, "none"), rng, TIER != "quick"):
             H = _hier(hs, ds, v["mcfg"])
-            H.load(ds)
+            bad = H.load(ds, via_orm=via_orm)
             cnt["runs"] += 1
+            cnt["orm_loaded"] += 1 if via_orm else 0
+            if bad:
+                viol.append((_sig(c, v, "persist"), "%s; ds=%r" % (bad, ds), dict(case=c, variant=v)))
+                continue
             key = "%s/%s/%s/%s" % (q["via"], v["poly"], v["mcfg"], kind_of(ds))
             if nt:
                 cov[key] = cov.get(key, 0) + 1
@@ -259,7 +264,7 @@ def main(chk):
     rng.shuffle(cases)
     CASES = cases
     res = oq.pmap(worker, len(cases))
-    tot = dict(cases=0, runs=0, nontrivial=0, objects=0)
+    tot = dict(cases=0, runs=0, nontrivial=0, objects=0, orm_loaded=0)
     cov = {}
     for viol, cnt, cv in res:
         for sig, what, rp in viol:
@@ -279,7 +284,7 @@ def main(chk):
     return chk.finish(
         dict(states=sum(r["distinct"] for r in runs), transitions=sum(r["generated"] for r in runs),
              traces_validated_against_impl=tot["cases"], evaluations=tot["runs"], distinct_nontrivial=tot["nontrivial"],
-             objects_checked=tot["objects"], hierarchy_shapes=len(shapes), option_coverage_nontrivial=cov, samples=samples, tlc_runs=runs,
+             objects_checked=tot["objects"], runs_on_orm_persisted_rows=tot["orm_loaded"], hierarchy_shapes=len(shapes), option_coverage_nontrivial=cov, samples=samples, tlc_runs=runs,
              exhaustive=False,
              rule="one case per TLC initial state (hierarchy shape x mapping kind x rows x query); each case runs under every applicable "
                   "polymorphic option (plain / with_polymorphic * / partial / flat / aliased / selectin_polymorphic / of_type target / 5 "
